@@ -269,6 +269,10 @@ class Sched:
         return _rt.get_ident() in self.by_ident
 
     def park(self, op):
+        if self.abort:
+            # the run is over (`kill`): a thread that was woken with _Abort reaches further shim operations in the
+            # `finally` / `with` exits of the implementation; parking again would block it for ever (leaked thread)
+            raise _Abort()
         ct = self.cur()
         ct.pending = op
         if op[0] == "lock" and ct.pool is not None and ct.next_task is not None and op[1].role == "tensor":
@@ -1763,6 +1767,13 @@ def fixed_cases(thorough=False):
          dict(mode="shards", workers=6, cap=4, shard=7, objs=[dict(size=2), dict(size=5), dict(size=2)],
               tensors=[T(0), T(1), T(0), T(2, True)])),
     ]
+    nested.append(
+        # MIXED shard writers (seeded C09-r1): shard 0 = [X, T] is written by a parallel inner writer, shard 1 = [T] by the
+        # serial writer (one tensor), T is ONE object shared by both shards and oversized (5 > 4): the two writers must take
+        # the tensor lock and the shared budget in the same order
+        ("nested-mixed-serial-parallel-shared-oversized",
+         dict(mode="shards", workers=6, cap=4, shard=7, objs=[dict(size=2), dict(size=5)],
+              tensors=[T(0), T(1), T(1)])))
     extra += [
         ("nested-2x2w-4t-oversized-shared",
          dict(mode="shards", workers=6, cap=4, shard=7, objs=[dict(size=2), dict(size=5), dict(size=2)],
@@ -2138,6 +2149,27 @@ def _work_inner(item, part):
                     _compare(part, name, case, cfg, results, serial, plan=False)
                     results = []
             _compare(part, name, case, cfg, results, serial, plan=False)
+            if part["disagreements"] and not part["failures"]:
+                # the implementation left the model's schedules on this configuration (broken correspondence): search
+                # its OWN reachable interleavings for a failing input - random walks over the transitions the
+                # implementation enables (seeded C09-r1: a lock-order inversion the cover schedules cannot follow)
+                import random
+
+                rng = random.Random(f"search-{name}")
+                results = []
+                for _w in range(300):
+                    if _leak_capped(part) or part["failures"]:
+                        break
+                    res = run_controlled(
+                        case, cfg,
+                        lambda k, obs: obs["enabled"][rng.randrange(len(obs["enabled"]))] if obs["enabled"] else None, part)
+                    if res is not None:
+                        results.append(res)
+                    if len(results) >= 25:
+                        _compare(part, name + ":search", case, cfg, results, serial, plan=False)
+                        results = []
+                        part.count("failing_input_search_walks", 25)
+                _compare(part, name + ":search", case, cfg, results, serial, plan=False)
         elif kind == "walk":  # random walks on random configurations
             import random
 
